@@ -1,6 +1,6 @@
 (* C09 -- property theorems (SubsectionIO part). *)
 From Pyctr Require Import Base.Prelude Base.ListExt Base.PySlice Env.PyFile Model.Window Model.Merger Proofs.WindowProofs Proofs.MergerProofs.
-From Pyctr Require Import Base.PyInt Env.FileIface Model.PosReader Proofs.PosReaderProofs Model.Blocks Model.Dpfs Proofs.DpfsProofs Model.Ivfc Model.IvfcRead Proofs.IvfcReadProofs.
+From Pyctr Require Import Base.PyInt Env.FileIface Model.PosReader Proofs.PosReaderProofs Model.Blocks Model.Dpfs Proofs.DpfsProofs Model.Ivfc Model.IvfcRead Proofs.IvfcReadProofs Proofs.LawfulChunkProofs.
 From Dyn Require Import Gen_fileio C09_bridge Gen_common Gen_dpfs Gen_ivfcpd.
 
 (* every step of every history of seek/read/write/tell calls, with any integer arguments,
@@ -67,3 +67,28 @@ Theorem C09_ivfc_file : forall H tree master verify, 0 < lv4_bs tree -> 0 < lv4_
   lawful (pr_ops (len view) (lv4_read H tree master verify)) (fun s => 0 <= pr_pos s) (fun _ => view) pr_pos.
 Proof. exact ivfc_file_lawful. Qed.
 Print Assumptions C09_ivfc_file.
+
+(* composition, for EVERY handle kind above (window, reader-owned file, DPFS level-3 file, level-4 view: each is a lawful file by the
+   theorems above): consecutive reads in ANY chunking (sizes negative, zero, over-long, past the end) return, glued, ONE slice of
+   the view starting at the initial position, and leave the position behind it; the view is unchanged *)
+Theorem C09_chunks_glue : forall (S : Type) (U : fileops S) inv content pos, lawful U inv content pos ->
+  forall ns s, inv s ->
+  exists t s', reads U s ns = Some (t, s') /\
+    t = slice (content s) (pos s) (len t) /\ pos s' = pos s + len t /\ content s' = content s /\ inv s'.
+Proof. intros S U inv content pos L ns. exact (lawful_chunks_glue U inv content pos L ns). Qed.
+Print Assumptions C09_chunks_glue.
+
+(* a window read from its start in any chunks and then to the end: exactly the bytes [off, off+sz) of the base file (cut at the
+   end of the base file), not one byte more or less *)
+Theorem C09_window_chunks_whole : forall off sz, 0 <= off -> 0 <= sz -> forall ns w, win_inv off w -> wseek w = 0 ->
+  exists w', reads (window_ops off sz) w (ns ++ [-1]) = Some (slice (fdata (wbase w)) off sz, w').
+Proof.
+  intros off sz Ho Hs ns w Hi Hp.
+  exact (lawful_chunks_then_rest_is_whole (window_ops off sz) (win_inv off) (win_content off sz) wseek (window_lawful off sz Ho Hs) ns w Hi Hp).
+Qed.
+Print Assumptions C09_window_chunks_whole.
+
+Example C09_chunks_example :
+  reads (window_ops 5 20) (mkWin (mkFile (map Z.of_nat (seq 0 40)) 33) 0) [3; 0; 9; 100; 2; -1]
+  = Some (map Z.of_nat (seq 5 20), mkWin (mkFile (map Z.of_nat (seq 0 40)) 25) 20).
+Proof. vm_compute. reflexivity. Qed.
